@@ -2149,7 +2149,10 @@ fn rewrite_static(
         .map(|res| recover_comment_removed(res, static_parts.span, context))
         .map(|s| if s.ends_with(';') { s } else { s + ";" })
     } else {
-        Some(format!("{prefix}{ty_str};"))
+        // A comment between the tokens of a declaration without a value has nowhere to go:
+        // keep the declaration as written rather than dropping the comment.
+        let res = recover_comment_removed(format!("{prefix}{ty_str};"), static_parts.span, context);
+        Some(if res.ends_with(';') { res } else { res + ";" })
     }
 }
 
